@@ -1,21 +1,25 @@
-import CryoCat.Lemmas.C19
+import CryoCat.Lemmas.C19_Loop
 /-! C19 — chain tracing partitions particles into simple, distance-respecting chains.
 
 `Spec` is the statement of properties.jsonl over the output rows `(tomogram, position, object, order,
 recorded value)`; distances are squared (`d i j`, `lo = min²`, `hi = max²`), which is the same
 interval test because everything is ≥ 0.  What is proved:
 
-* for the MODEL of `trace_chains` (all inputs, all sizes, all distance functions, every choice of the
-  comparison operators): clause 1 and "chains never span tomograms" (`trace_partition`,
-  `trace_partition_all`, `trace_no_span`), and the order/distance clauses for the chain produced by the
-  tracing loop (`trace_links_partial`);
+* for the MODEL of `trace_chains` (all inputs, all sizes, all distance functions): clause 1 and "chains
+  never span tomograms" for every choice of the comparison operators (`trace_partition`,
+  `trace_partition_all`, `trace_no_span`); for the documented operators (= the ones read from the
+  source, `opts_documented`) the ORDER clause and the DISTANCE clause through all branches — append,
+  suffix attach with/without tail cut, prefix attach with/without head cut, two-sided merge with/without
+  either cut (`trace_chains_well_numbered`, `trace_orders`, `trace_dist`), hence the whole statement
+  (`trace_spec_full`);
 * for the CHECKER that is run on the real output of every generated case: `check_sound`
   (all three clauses);
 * regression witnesses for the two repaired defects (`tailcut_roworder_counterexample`,
   `double_cut_shared_id_counterexample`) and that the repaired model passes on the same inputs.
 
-The order and distance clauses of the model THROUGH the merge branches (suffix / prefix / two-sided /
-cuts) are stated as `SpecFull` and are not proved; see the builder's report. -/
+`SpecFull` is proved (`trace_spec_full`). What ties the model to the code: the operator table
+(`opts_documented`), the exact row-by-row comparison of every generated case, and `chainsOk` on the
+real output. -/
 namespace CryoCat.C19
 variable {α : Type} [LE α] [LT α] [DecidableLE α] [DecidableLT α] [DecidableEq α]
 
@@ -37,6 +41,18 @@ theorem both_sides_fresh_id : Gen.C19.bothSidesFreshId = true := by decide
 /-- all thirteen comparison / bookkeeping sites read from the source are the documented ones
 (`>` min, `<=` keeps the existing link at both ends, `>`/`<` select tail/head, first order 1, …) -/
 theorem opts_documented : Opts.gen = Opts.documented := by decide
+
+/-- the numbering constants the model hard-codes are the ones in the source: object ids and order
+numbers start at 1 and advance by 1 (one `chain_id += 1`; `class_c += 1` after every chain and once
+more for a two-sided merge), a two-sided merge needs `cl_max > 1`, the order-number shifts are
+`+= chain_max_order` (suffix) and `+= class_max - cut_off_size` (prefix, both forms) with
+`cut_off_size` starting at 0, and the temporary id of a head cut off in a two-sided merge is `-1`
+(never a real object id, `WN.rng`) -/
+theorem numbering_documented :
+    Gen.C19.classStart = 1 ∧ Gen.C19.orderStart = 1 ∧ Gen.C19.orderStepSites = 1 ∧ Gen.C19.orderStep = 1 ∧
+    Gen.C19.classStepSites = 2 ∧ Gen.C19.classStep = 1 ∧ Gen.C19.bothMinLenCmp = .gt ∧ Gen.C19.bothMinLen = 1 ∧
+    Gen.C19.suffixShiftDocumented = true ∧ Gen.C19.prefixShiftDocumented = true ∧ Gen.C19.cutOffInit = 0 ∧
+    Gen.C19.headMarker = -1 := by decide
 
 /-! ### the statement -/
 
@@ -63,11 +79,15 @@ def NoSpan (cs : List (Cfg α)) (out : List (ORow α)) : Prop :=
 def Spec (cs : List (Cfg α)) (out : List (ORow α)) : Prop :=
   Once cs out ∧ Orders out ∧ Dist cs out ∧ NoSpan cs out
 
-/-- the full statement about the model (tie exclusions of the quantifier as hypotheses: when
-`min_distance = 0` no exit site coincides with another particle's entry site). NOT proved for the
-merge branches; decided on every generated case by `chainsOk` applied to the real output. -/
+/-- the tie exclusion of the quantifier: when `min_distance = 0` no exit site coincides with another
+particle's entry site (only pairs of particles of the tomogram are constrained) -/
+def NoCoincidence (cs : List (Cfg α)) : Prop :=
+  ∀ c ∈ cs, ∀ i j, i < c.n → j < c.n → i ≠ j → c.lo < c.d i j ∨ c.zero < c.minD
+
+/-- the full statement about the model: all four clauses for the table the model of `trace_chains`
+returns, for every list of tomograms. PROVED below (`trace_spec_full`). -/
 def SpecFull (cs : List (Cfg α)) : Prop :=
-  (∀ c ∈ cs, ∀ i j, i ≠ j → c.lo < c.d i j ∨ c.zero < c.minD) → Spec cs (runAll Opts.documented cs)
+  NoCoincidence cs → Spec cs (runAll Opts.documented cs)
 
 /-! ### clause 1 and clause 4 for the model: all inputs, all operator choices -/
 
@@ -94,10 +114,93 @@ theorem once_no_span (cs : List (Cfg α)) (out : List (ORow α)) (h : Once cs ou
 theorem trace_no_span (o : Opts) (cs : List (Cfg α)) : NoSpan cs (runAll o cs) :=
   once_no_span cs _ (trace_partition_all o cs)
 
-/-! ### clauses 2 and 3 for the chain produced by the tracing loop (partial) -/
+/-! ### clauses 2 and 3 for the model through ALL branches -/
 
-/-- **Partial** (what is missing: preservation through `add_chain_suffix`/`add_chain_prefix`):
-the chain the `while` loop builds from any start `p` is numbered 1.. in chain order by
+/-- **`ChainsWellNumbered` is an invariant of the main loop** (one tomogram): after every completed
+chain — append-only, suffix attach with and without tail cut, prefix attach with and without head
+cut, two-sided merge with and without either cut, rejected attachments — every object of the traced
+table carries the order numbers `1..K obj` without duplicates and without gaps. Proof: each branch of
+`add_chain_suffix`/`add_chain_prefix` is one relabelling of `nfm ++ chain` that maps numbered
+positions one-to-one onto numbered positions (`Lemmas/C19_Suffix`, `C19_Prefix`); induction over the
+`for` loop (`Lemmas/C19_Loop`). -/
+theorem trace_chains_well_numbered (c : Cfg α) : ChainsWellNumbered (run Opts.documented c).nfm :=
+  (run_inv2 c).1
+
+/-- **Orders: within each tomogram every chain carries exactly the order numbers 1..k** — for the
+model of `trace_chains` with the documented operators, all inputs, all sizes, all distance functions,
+through all branches. (The clause that was false twice in the real code: D18, D21.) -/
+theorem trace_orders (cs : List (Cfg α)) : Orders (runAll Opts.documented cs) := by
+  intro t g
+  have e := group_flatMap (fun c : Cfg α => (run Opts.documented c).nfm) t g cs 0
+  dsimp only at e
+  unfold runAll
+  rw [e]
+  simp only [Nat.zero_le, if_true, Nat.sub_zero]
+  cases cs[t]? with
+  | none => exact List.Perm.refl _
+  | some c =>
+    obtain ⟨⟨K, cc, hW⟩, _, hnd, _⟩ := run_inv2 c
+    have := hW.orders hnd g
+    simpa [Function.comp_def] using this
+
+/-- **Distances: for consecutive members of a chain the recorded value on the former is the
+exit→entry distance to the latter, and it lies in (min, max]** — model, documented operators, all
+inputs, all branches (invariant `DL`: every row's recorded value is the true distance to its
+successor whenever it has one; the last member of a chain is unconstrained). -/
+theorem trace_dist (cs : List (Cfg α)) (htie : NoCoincidence cs) : Dist cs (runAll Opts.documented cs) := by
+  intro a ha b hb hab hobj hord
+  obtain ⟨ta, ra⟩ := a
+  obtain ⟨tb, rb⟩ := b
+  simp only at hab hobj hord
+  subst hab
+  obtain ⟨c, _, hc, hra⟩ := mem_flatMap_tomo (fun c : Cfg α => (run Opts.documented c).nfm) ta ra cs 0 ha
+  obtain ⟨c', _, hc', hrb⟩ := mem_flatMap_tomo (fun c : Cfg α => (run Opts.documented c).nfm) ta rb cs 0 hb
+  rw [hc] at hc'
+  simp only [Option.some.injEq] at hc'
+  subst hc'
+  obtain ⟨_, hD, hnd, hlt⟩ := run_inv2 c
+  obtain ⟨h1, h2⟩ := hD ra hra rb hrb hobj hord
+  obtain ⟨h3, h4⟩ := inWin_documented c _ h2
+  have hne : ra.idx ≠ rb.idx := fun e => by
+    have := idx_inj_of_nodup hnd hra hrb e
+    subst this
+    omega
+  have hcm : c ∈ cs := List.mem_of_getElem? hc
+  refine ⟨c, by simpa using hc, ?_, h3, h1⟩
+  rcases htie c hcm _ _ (hlt _ (List.mem_map.2 ⟨ra, hra, rfl⟩)) (hlt _ (List.mem_map.2 ⟨rb, hrb, rfl⟩)) hne with h | h
+  · exact h
+  · exact h4 h
+
+/-- **The full statement holds for the model**: every particle exactly once, orders 1..k per chain,
+consecutive distances in the window and recorded, no chain spans tomograms. -/
+theorem trace_spec_full (cs : List (Cfg α)) : SpecFull cs :=
+  fun h => ⟨trace_partition_all _ cs, trace_orders cs, trace_dist cs h, trace_no_span _ cs⟩
+
+/-- the same for the operator table regenerated from the source on every check (what the driver
+executes): an edit of any of the thirteen operator sites breaks `opts_documented` and with it this -/
+theorem trace_spec_full_gen (cs : List (Cfg α)) (h : NoCoincidence cs) : Spec cs (runAll Opts.gen cs) := by
+  rw [opts_documented]
+  exact trace_spec_full cs h
+
+/-- the branches the invariant is carried through are live: the 8-particle double-cut arrangement
+goes through prefix cut, suffix attach, two-sided merge, tail cut and two-sided merge with head cut -/
+example : (run Opts.documented (cfgOfPts ptsDoubleCut 24 0)).tags =
+    [.append, .append, .skip, .prefixCut, .suffixKeep, .both, .append, .skip, .suffixCut, .bothCut] := by
+  decide +kernel
+
+/-- the hypothesis of `trace_dist`/`SpecFull` is satisfiable: it holds on the D18 arrangement -/
+example : NoCoincidence [cfgOfPts ptsD18 30 0] := by
+  intro c hc
+  simp only [List.mem_singleton] at hc
+  subst hc
+  have key : ∀ i, i < 6 → ∀ j, j < 6 → i ≠ j →
+      (cfgOfPts ptsD18 30 0).lo < (cfgOfPts ptsD18 30 0).d i j := by decide +kernel
+  intro i j hi hj hne
+  exact Or.inl (key i hi j hj hne)
+
+/-! ### clauses 2 and 3 for the chain produced by the tracing loop -/
+
+/-- (kept from the first round; now subsumed by `trace_orders`/`trace_dist`) the chain the `while` loop builds from any start `p` is numbered 1.. in chain order by
 `mkChainFrom`, and each stored value is the exit→entry squared distance of that link, which lies in
 `(lo, hi]` (`lo <` under the guard `min_distance > 0`, exactly as the code filters). -/
 theorem trace_links_partial (c : Cfg α) (traced : List Nat) (fuel p : Nat) (used : List Nat) (cls : Int) :
@@ -167,9 +270,5 @@ theorem repaired_model_passes_witnesses :
 /-- `check_sound`'s hypothesis is satisfiable by a non-trivial output (three chains, merges, cuts) -/
 example : chainsOk [cfgOfPts ptsD18 30 0] (runAll Opts.documented [cfgOfPts ptsD18 30 0]) = true := by
   decide +kernel
-
-/-- the tie-exclusion hypothesis of `SpecFull` holds on the D18 arrangement -/
-example : ∀ i ∈ List.range 6, ∀ j ∈ List.range 6, i ≠ j →
-    (cfgOfPts ptsD18 30 0).lo < (cfgOfPts ptsD18 30 0).d i j := by decide +kernel
 
 end CryoCat.C19
